@@ -7,12 +7,16 @@
 //	              f<code>  breaker fallback = ResponseFallback{code,"text/fb","fb-body"};  fr = RedirectFallback
 //	              q<n> r<n> m<n>   buffer MaxRequestBodyBytes / MaxResponseBodyBytes / Mem{Request,Response}BodyBytes
 //	    intervene=<idx>: the layer at that position (0 = outermost) is driven to its limit before the first op:
-//	              connlimit max=1 with one request parked inside the handler; ratelimit 1/s burst 1 consumed by a
+//	              connlimit max=1 with one request parked inside the handler (every other connlimit: max = 1 + parked requests,
+//	              i.e. exactly what the sequential ops need, so that one leaked slot is visible); ratelimit 1/s burst 1 consumed by a
 //	              priming request (frozen clock); breaker tripped by a priming 500; balancers get an empty pool.
 //	              stream / trace / buffer have no such state (buffer intervenes through q<n> and the request body).
 //	    script := status:<code|none>;hdr:K=V,K=V;body:<len>,<len>;flush:<k>;hijack:<0|1>
 //	              body chunk i byte j = (37i+11j+7) mod 251; flush:k = Flush after chunk k (0 = never)
-//	req [body=<len>]
+//	req [body=<len>] [abort=1]
+//	    abort=1: the handler does its (non-hijacking) writes/flush and then leaves by panic(http.ErrAbortHandler); the client
+//	    sees a broken or short response -> aborted invoked=<n>   (if a layer intervened the handler never ran: normal line)
+//	    all req ops of a scenario go to the SAME stack instance, one after the other
 //	    -> status=<code> invoked=<n> body=<len>:<adler32> hdr=<K:V|K:V sorted by key|-> flush=<-|0|1> hijack=<-|0|1> fi=<-|0|1> hi=<-|0|1>
 //	       flush=1: the bytes written before Flush reached the client while the handler was still running
 //	       hijack=1: Hijack() returned a connection (the handler then writes the raw response itself)
@@ -133,7 +137,11 @@ func (s *scen) handle(w http.ResponseWriter, r *http.Request) {
 	if status == 0 {
 		status = http.StatusOK
 	}
-	if sc.hijack {
+	abort := r.Header.Get("X-Abort") != ""
+	if abort {
+		defer panic(http.ErrAbortHandler)
+	}
+	if sc.hijack && !abort {
 		ok := false
 		if hi {
 			conn, _, err := hj.Hijack()
@@ -295,9 +303,9 @@ func build(specs []layerSpec, intervene int, inner http.Handler) (http.Handler, 
 		case "trace":
 			h, err = trace.New(next, io.Discard)
 		case "connlimit":
-			max := int64(1000)
-			if trip {
-				max = 1
+			max := int64(1)
+			if !trip && intervene >= 0 && specs[intervene].kind == "connlimit" {
+				max = 2 // the parked request sits in one slot of every connlimit of the stack
 			}
 			h, err = connlimit.New(next, source, max)
 		case "ratelimit":
@@ -450,6 +458,9 @@ func (s *scen) Op(f []string) string {
 		return "bad-op"
 	}
 	body := hx.KVInt(f, "body", 0)
+	if v, _ := hx.KV(f, "abort"); v == "1" {
+		return s.abortExchange(body)
+	}
 	out, timedOut := s.exchange(body)
 	if timedOut {
 		// Machine-wide stalls of tens of seconds (memory exhaustion by unrelated processes) have been observed; the
@@ -459,16 +470,32 @@ func (s *scen) Op(f []string) string {
 	return out
 }
 
+// abortExchange sends a request whose handler panics with http.ErrAbortHandler.  Whatever the client saw of it is
+// canonicalised as "aborted"; if the handler was never reached the exchange is an ordinary one (a layer answered).
+func (s *scen) abortExchange(body int) string {
+	line, st, _ := s.exchangeH(body, map[string]string{"X-Abort": "1"})
+	<-waitOr(st.done, 10*time.Second) // the panic has unwound through the whole stack (deferred code has run)
+	if inv := atomic.LoadInt32(&st.invoked); inv > 0 {
+		return fmt.Sprintf("aborted invoked=%d", inv)
+	}
+	return line
+}
+
 func isTimeout(err error) bool {
 	c := errClass(err)
 	return c == "Timeout_exceeded" || c == "deadline_exceeded"
 }
 
 func (s *scen) exchange(body int) (string, bool) {
-	resp, st, err := s.do(body, nil)
+	line, _, timedOut := s.exchangeH(body, nil)
+	return line, timedOut
+}
+
+func (s *scen) exchangeH(body int, hdr map[string]string) (string, *reqState, bool) {
+	resp, st, err := s.do(body, hdr)
 	if err != nil {
 		<-waitOr(st.done, 500*time.Millisecond)
-		return fmt.Sprintf("err transport:%s invoked=%d%s", errClass(err), atomic.LoadInt32(&st.invoked), panicNote(st)), isTimeout(err)
+		return fmt.Sprintf("err transport:%s invoked=%d%s", errClass(err), atomic.LoadInt32(&st.invoked), panicNote(st)), st, isTimeout(err)
 	}
 	atomic.StoreInt32(&st.hdrSeen, 1)
 	sum := adler32.New()
@@ -492,12 +519,12 @@ func (s *scen) exchange(body int) (string, bool) {
 	_ = resp.Body.Close()
 	<-waitOr(st.done, 3*time.Second)
 	if rerr != nil {
-		return fmt.Sprintf("err body:%s status=%d invoked=%d%s", errClass(rerr), resp.StatusCode, atomic.LoadInt32(&st.invoked), panicNote(st)), isTimeout(rerr)
+		return fmt.Sprintf("err body:%s status=%d invoked=%d%s", errClass(rerr), resp.StatusCode, atomic.LoadInt32(&st.invoked), panicNote(st)), st, isTimeout(rerr)
 	}
 	inv := atomic.LoadInt32(&st.invoked)
 	fi, hi := atomic.LoadInt32(&st.fi), atomic.LoadInt32(&st.hi)
 	return fmt.Sprintf("status=%d invoked=%d body=%d:%08x hdr=%s flush=%s hijack=%s fi=%s hi=%s", resp.StatusCode, inv, total, sum.Sum32(),
-		canonHeaders(resp.Header), tri(atomic.LoadInt32(&st.flush)), tri(atomic.LoadInt32(&st.hijack)), tri(fi), tri(hi)), false
+		canonHeaders(resp.Header), tri(atomic.LoadInt32(&st.flush)), tri(atomic.LoadInt32(&st.hijack)), tri(fi), tri(hi)), st, false
 }
 
 func panicNote(st *reqState) string {
